@@ -30,7 +30,7 @@ def ddmin(items, test):
     return items
 
 
-APPENDING = {"leaf", "calc", "proj", "sel", "dedup", "sort", "slice", "chain", "join", "mat", "xfer", "process",
+APPENDING = {"leaf", "calc", "proj", "sel", "dedup", "sort", "slice", "chain", "join", "mat", "xfer", "process", "mark",
              }
 REFS = ("t", "l", "r")
 
